@@ -1441,3 +1441,64 @@ def rule_mask_flag_independence(check, model, rule):
         else:
             check.holds(rule, st, '%s is decided by the signature and the arguments alone (no hide_* flag on the way)' % norm(r.exc)[:50], key=key)
     check.floor(rule, 'raise statements of _mask', n, 3)
+
+
+def rule_remove_helper_contract(check, model, rule):
+    """(round 8) `_remove_from_src(src, xs)` takes the provenance entries of `xs` away.  Whether `xs` holds *names* or *parameters* is a
+    contract between the helper and every call site: a helper that reads `x.name` handed the keyword-only bucket (a dict: it iterates as
+    names) or the set of consumed names raises AttributeError out of mask -- not a ValueError; one that uses `x` as the key handed a list
+    of parameters removes nothing.  The helper's body and the argument of each call in _mask agree."""
+    repo = model.repo
+    proto = model.proto
+    h = repo.func(SIG + ':_remove_from_src', required=False)
+    if h is None:
+        check.holds(rule, '-', 'no _remove_from_src helper', key='remove-helper|none', nontrivial=False)
+        return
+    check.analysed(h)
+    hp = h.params()[0]
+    loopvars = [l.target.id for l in ast.walk(h.node) if isinstance(l, ast.For) and isinstance(l.target, ast.Name) and isinstance(l.iter, ast.Name)
+                and len(hp) > 1 and l.iter.id == hp[1]]
+    wants = 'names'
+    for x in ast.walk(h.node):
+        if isinstance(x, ast.Attribute) and x.attr == 'name' and isinstance(x.value, ast.Name) and x.value.id in loopvars:
+            wants = 'parameters'
+    iPO, iPOK, iKWO = [proto.index_of_kind(k) for k in ('PO', 'POK', 'KWO')]
+    n = 0
+    seen = set()
+    for p in model.paths:
+        for e, g in walk_effects(p.effects):
+            if not (e.kind == 'call' and isinstance(e.op, str) and e.op.endswith(':_remove_from_src') and len(e.args) == 2):
+                continue
+            a = e.args[1]
+            k = (getattr(e.node, 'lineno', 0), getattr(e.node, 'col_offset', 0))
+            if k in seen:
+                continue
+            seen.add(k)
+            gives = None
+            r = a
+            if r[0] == 'V' and len(r) > 3 and r[3] == 'after':
+                r = model.resolve_after(r, p)[0] or r
+            if r[0] == 'SET':
+                gives = 'names'
+            elif r[0] == 'C' and isinstance(r[1], str) and r[1].endswith(':_pnames'):
+                gives = 'names'
+            elif model.sides.bucket(r) == ('sig', iKWO) or (r[0] == 'D'):
+                gives = 'names'          # a mapping iterates as its keys
+            elif model.sides.bucket(r) in (('sig', iPO), ('sig', iPOK)) or (r[0] == 'SL' and model.sides.bucket(r[1]) in (('sig', iPO), ('sig', iPOK))) \
+                    or r[0] == 'L':
+                gives = 'parameters'
+            elif r[0] == 'M' and r[2] == 'values':
+                gives = 'parameters'
+            n += 1
+            key = 'remove-helper|%s' % norm(e.node)[:60]
+            st = site(None, e.node)
+            if gives is None:
+                check.inconclusive(rule, st, 'what %s hands to _remove_from_src is not understood' % show(a)[:60], key=key)
+            elif gives != wants:
+                check.violation(rule, st, '_remove_from_src works on %s, but %s hands it %s: %s' % (
+                    wants, norm(e.node)[:60], gives,
+                    'AttributeError (not ValueError) leaves mask' if wants == 'parameters' else 'nothing is removed from the provenance map'), key=key,
+                    witness="mask(s('a, *, k'), hide_kwargs=True)")
+            else:
+                check.holds(rule, st, '%s hands %s to a helper that works on %s' % (norm(e.node)[:50], gives, wants), key=key)
+    check.floor(rule, 'calls of _remove_from_src in _mask', n, 2)
